@@ -73,7 +73,7 @@ mutual
     | [] => fun _ => klList_nil
     | k :: ks => by
       intro hv
-      rw [validList_cons, Bool.and_eq_true] at hv
+      rw [fs_validList_cons, Bool.and_eq_true] at hv
       rw [klList_cons, kl_of_valid k hv.1, klList_of_valid ks hv.2]
       simp only [Bool.and_true, Bool.or_eq_true, Bool.not_eq_true', List.isEmpty_iff]
       cases ht : k.value.isText with
@@ -546,7 +546,7 @@ theorem specMove_strValues {f : Forest} {keep : Keep} {dest : Dest} {c : Nat} {t
             rw [hgc] at this
             exact (Option.some.inj this).symm
           apply so.nodupKids.2
-          rw [handlesList_append, handlesList_cons, hself]
+          rw [fs_handlesList_append, handlesList_cons, hself]
           exact List.mem_append_right _ (List.mem_append_left _ hin)
         refine ⟨klList_editAt (fun L h => klList_dropTop c h) f.roots hklf hspo,
           siteOkList_editAt (fun L h => siteOkList_dropTop q c h) f.roots hsq, ?_⟩
